@@ -61,6 +61,7 @@ type Contract struct {
 	Lets     []Clause // `let name = expr` evaluated at entry (ghost abbreviations)
 	MayPanic bool    // `panics` clause present or `maypanic`
 	Logged   bool    // interface method whose invocations are recorded in the ghost trace (user-implementable protocol)
+	Reveal   []string // opaque spec functions whose definitions are visible while this contract is being verified
 	ParamNames []string // interface method contracts: names for the (often unnamed) parameters, `func I.M(a, b)`
 	Modifies []string
 }
@@ -71,6 +72,7 @@ type SpecFunc struct {
 	Ret     string
 	Body    *Expr
 	Rec     bool
+	Opaque  bool // body visible only to contracts that `reveal` it
 	Static  bool // may read the heap as it is on entry of the function under verification (arrays that function never writes)
 	PkgPath string
 	File    string
@@ -97,6 +99,7 @@ type LemmaDecl struct {
 	Line     int
 	// proof hints: `use expr` clauses are asserted facts that must themselves be proved first (assert-then-assume)
 	Uses []Clause
+	Reveal []string
 	Induct string // parameter name for induction on naturals
 }
 
@@ -108,7 +111,7 @@ type ContractSet struct {
 	Files  []string
 }
 
-var kwRe = regexp.MustCompile(`^(func|pure|axiom|lemma|requires|ensures|panics|loop|decreases|inline|trusted|nopanic|let|maypanic|modifies|use|induct|logged|end)\b`)
+var kwRe = regexp.MustCompile(`^(func|pure|axiom|lemma|requires|ensures|panics|loop|decreases|inline|trusted|nopanic|let|maypanic|modifies|use|induct|logged|reveal|end)\b`)
 
 type rawLine struct {
 	text string
@@ -327,6 +330,13 @@ func parseContractLines(lines []rawLine, fname, pkgPath string, cs *ContractSet)
 			if cur != nil {
 				cur.Logged = true
 			}
+		case "reveal":
+			names := strings.Fields(strings.ReplaceAll(rest, ",", " "))
+			if cur != nil {
+				cur.Reveal = append(cur.Reveal, names...)
+			} else if curLemma != nil {
+				curLemma.Reveal = append(curLemma.Reveal, names...)
+			}
 		case "maypanic":
 			if cur != nil {
 				cur.MayPanic = true
@@ -399,6 +409,11 @@ func parseSpecFunc(s, fname string, line int) (*SpecFunc, error) {
 		}
 		if strings.HasPrefix(s, "static ") {
 			sf.Static = true
+			s = strings.TrimSpace(s[7:])
+			continue
+		}
+		if strings.HasPrefix(s, "opaque ") {
+			sf.Opaque = true
 			s = strings.TrimSpace(s[7:])
 			continue
 		}
